@@ -113,11 +113,40 @@ def make(jobs=16, timeout=3000):
     return p.returncode, p.stdout[-20000:] + p.stderr[-20000:]
 
 
-def vo_ok(rel_v):
-    """is the .vo of theories-relative file rel_v present and newer than its source?"""
+def direct_deps(rel_v):
+    try:
+        src = open(os.path.join(TH, rel_v)).read()
+    except FileNotFoundError:
+        return []
+    src = re.sub(r"\(\*.*?\*\)", "", src, flags=re.S)
+    out = []
+    for m in re.finditer(r"From\s+(SM[\w.]*)\s+Require\s+(?:Import|Export)?\s*([^.]*?)\.(?=\s)", src, re.S):
+        pre = m.group(1).split(".")[1:]
+        for name in m.group(2).split():
+            cand = os.path.join(*(pre + name.split("."))) + ".v"
+            if os.path.exists(os.path.join(TH, cand)):
+                out.append(cand)
+    return out
+
+
+def vo_ok(rel_v, _memo=None):
+    """is the .vo of theories-relative file rel_v present, newer than its source, and not older
+    than the (recursively up-to-date) .vo of everything it requires?  (make -k leaves a stale
+    .vo in place when a rebuild fails, so existence alone proves nothing.)"""
+    memo = {} if _memo is None else _memo
+    if rel_v in memo:
+        return memo[rel_v]
+    memo[rel_v] = False
     v = os.path.join(TH, rel_v)
     vo = v + "o"
-    return os.path.exists(vo) and os.path.getmtime(vo) >= os.path.getmtime(v)
+    if not (os.path.exists(vo) and os.path.exists(v) and os.path.getmtime(vo) >= os.path.getmtime(v)):
+        return False
+    t = os.path.getmtime(vo)
+    for d in direct_deps(rel_v):
+        if not vo_ok(d, memo) or os.path.getmtime(os.path.join(TH, d) + "o") > t:
+            return False
+    memo[rel_v] = True
+    return True
 
 
 def deps_of(rel_v, seen=None):
